@@ -424,7 +424,9 @@ func (e *c19Env) acceptCase(stream string, en c19Entry, t c19ATop) *c19Accepted 
 				bad = true
 			}
 		}
-		if bad {
+		if bad && m[0] == "_cv" {
+			e.fail("stored_body_has_no_reserved_keys", "stored-cv-clashes-with-injected-cv", desc, fmt.Sprintf("the stored body has the reserved member %q: %s", m[0], c19Short(raw)))
+		} else if bad {
 			e.fail("stored_body_has_no_reserved_keys", "stored-reserved-key:"+m[0], desc, fmt.Sprintf("the stored body has the reserved member %q: %s", m[0], c19Short(raw)))
 		}
 	}
@@ -933,7 +935,9 @@ func (e *c19Env) importFeedStream(rt2 *RestTester) {
 						bad = true
 					}
 				}
-				if bad {
+				if bad && m[0] == "_cv" {
+					e.fail("stored_body_has_no_reserved_keys", "stored-cv-clashes-with-injected-cv", desc, fmt.Sprintf("an imported body has the reserved member %q: %s", m[0], c19Short(raw)))
+				} else if bad {
 					e.fail("stored_body_has_no_reserved_keys", "stored-reserved-key:"+m[0], desc, fmt.Sprintf("an imported body has the reserved member %q: %s", m[0], c19Short(raw)))
 				}
 			}
